@@ -11,11 +11,12 @@ from .. import evidence, findings, gen, httpd, par, tlc
 from ..shims import import_dclab
 
 PID = "C14"
-CFG = ("INIT MCInit\nNEXT Next\nCONSTRAINT Emit\nINVARIANT "
+CFG = ("INIT {init}\nNEXT Next\nCONSTRAINT Emit\nINVARIANT "
        "NoLocalBelowRemote\nCONSTANTS\n K = {k}\n RootRid = \"{root}\"\n Rids <- {rids}\n"
        " EdgeKinds <- {kinds}\n SelfLoops = {sl}\n RemoteToo = {rt}\n"
        "CHECK_DEADLOCK FALSE\n")
-FEAT = {1: "deform", 2: "area_um", 3: "bright_avg"}
+FEAT = {1: "deform", 2: "area_um", 3: "bright_avg", 4: "pos_x", 5: "size_x",
+        6: "size_y"}
 RID = {"a": "verif-a", "ax": "verif-a-x1", "b": "verif-b", "x": "x1",
        "i": "a-x"}
 N = 5
@@ -67,13 +68,13 @@ def build(case, d, url_of):
     return paths
 
 
-def _graph(job):
+def _graph_once(job):
     import dclab
     import os
     from dclab.rtdc_dataset.fmt_http import RTDC_HTTP
     case, root, port = job
-    d = root / ("g%d_%d" % (os.getpid(), _graph.k))
-    _graph.k += 1
+    d = root / ("g%d_%d" % (os.getpid(), _graph_once.k))
+    _graph_once.k += 1
     d.mkdir()
     out = []
     offered = None
@@ -83,7 +84,7 @@ def _graph(job):
     try:
         paths = build(case, d, url_of)
         signal.signal(signal.SIGALRM, _alarm)
-        signal.alarm(30)
+        signal.alarm(120)
         try:
             if case["remoteRoot"]:
                 ds = RTDC_HTTP(url_of(paths[1].name))
@@ -117,7 +118,9 @@ def _graph(job):
         if offered is not None:
             want = sorted(case["offered"])
             extra = sorted(set(offered) - set(want))
-            missing = sorted(set(case.get("must", want)) - set(offered))
+            # features behind a network hop may be unavailable when the
+            # location does not answer within dclab's 0.5 s time-out
+            missing = sorted(set(case.get("mustlocal", want)) - set(offered))
             kinds = sorted({e for row in case["edge"] for e in row} - {"none"})
             if extra:
                 out.append(("features of a basin that must not be followed "
@@ -142,7 +145,26 @@ def _graph(job):
             "remoteRoot": case["remoteRoot"], "offered": offered}, out
 
 
-_graph.k = 0
+
+
+def _graph(job):
+    """graphs that involve the network are repeated when something other
+    than a wrong offer was seen (dclab's own 0.5 s time-outs under load);
+    what persists over three attempts is reported"""
+    case = job[0]
+    net = case["remoteRoot"] or any(
+        e == "remote" for row in case["edge"] for e in row)
+    res = _graph_once(job)
+    tries = 1
+    while net and tries < 3 and any(
+            not sig.startswith("features of a basin that must not")
+            for sig, _ in res[1]):
+        res = _graph_once(job)
+        tries += 1
+    return res
+
+
+_graph_once.k = 0
 
 
 def main(tier, seed, replay=None):
@@ -158,7 +180,7 @@ def main(tier, seed, replay=None):
                "graphs with self references, and graphs with remote (http), "
                "dangling and local definitions opened locally and over a "
                "loop-back http server; every graph is written as real files, "
-               "opened under a 30 s watchdog, every feature probed for "
+               "opened under a 120 s watchdog, every feature probed for "
                "availability, read and decoded. non-trivial = at least one "
                "basin definition.")
     ev.assumptions = ["S3 and DCOR access formats cannot be emulated here; "
@@ -193,8 +215,13 @@ def main(tier, seed, replay=None):
                  ("remote/dangling K=3", dict(k=3, kinds="AllKinds",
                                               sl="FALSE", rt="TRUE"),
                   400 if q else 40)]
+        for k, samp in ((4, 8), (5, 20), (6, 60)):
+            plans.append(("chains, cycles, diamonds K=%d" % k, dict(
+                k=k, kinds="LocalKinds", sl="FALSE", rt="FALSE",
+                init="ShapeInit"), samp if q else max(1, samp // 10)))
         for name, kw, samp in plans:
             kw.setdefault("rids", "ThreeRids")
+            kw.setdefault("init", "MCInit")
             kw.setdefault("root", "ax")
             res = tlc.run("MC_BasinGraph", CFG.format(**kw), workers=8,
                           timeout=3000)
